@@ -3,7 +3,7 @@
    processBlock/deleteBlock batches, block cache). *)
 From Coq Require Import List NArith ZArith Bool.
 From LE Require Import Base.Lex Store.SMap Store.PebbleIter Store.PebbleIterProofs Store.DiffDB Store.DiffDBProofs
-  Store.DiffDBSpec Store.DiffDBRefine Store.Diff Chain.BlockStore Chain.BlockStoreProofs Chain.U32.
+  Store.DiffDBSpec Store.DiffDBRefine Store.Diff Chain.BlockStore Chain.BlockStoreProofs Chain.U32 Chain.Reorg Chain.History.
 Import ListNotations.
 Local Open Scope N_scope.
 
@@ -83,6 +83,61 @@ Theorem C05_same_batch_preserves_agreement : forall (W : list wr) db1 db2 (E : k
   (forall k, E k = false -> lookup db1 k = lookup db2 k) ->
   forall k, E k = false -> lookup (apply_writes W db1) k = lookup (apply_writes W db2) k.
 Proof. exact same_batch_preserves_agreement. Qed.
+
+(* REORG CONFLUENCE.  The execution of a block against the consensus store is an adaptive program [p'] (results so
+   far -> next staged operation).  Apply B, delete B, then execute and apply B': B' observes exactly the reads it
+   observes when executed directly on the original database, and the two resulting databases agree on every key
+   outside the exceptions of B.  ([wf_db db2]: the keys written by B are byte strings.) *)
+Theorem C05_reorg_confluence : forall fuel (p' : prog) db c diff_enc prune b events fh rt keep st
+    diff_enc' prune' b' events' fh' rt',
+  sorted db -> wf_db db -> Inv db c -> cache_pref [pfxState] c ->
+  fresh db (kDiff (b_height b) :: block_keys b) -> prog_wf p' ->
+  let db1 := apply_writes (apply_batch db c diff_enc prune b events fh rt keep) db in
+  let db2 := apply_writes (delete_batch (diff_of c) b st) db1 in
+  wf_db db2 ->
+  let E := exception (ev_bound fh (b_height b) keep) prune [b_height b] in
+  let direct := run_prog fuel db (init_state [pfxState]) p' [] in
+  let after := run_prog fuel db2 (init_state [pfxState]) p' [] in
+  snd after = snd direct /\
+  forall k, E k = false ->
+    lookup (apply_writes (apply_batch db2 (d_cache (fst after)) diff_enc' prune' b' events' fh' rt' keep) db2) k =
+    lookup (apply_writes (apply_batch db (d_cache (fst direct)) diff_enc' prune' b' events' fh' rt' keep) db) k.
+Proof. exact reorg_confluence. Qed.
+
+(* its core: the same adaptive block on two databases that agree outside a key set E containing no consensus-store
+   key reads the same values and leaves databases that agree outside E *)
+Theorem C05_same_block_on_agreeing_dbs : forall fuel (p : prog) db1 db2 (E : key -> bool)
+    diff_enc prune b events fh rt keep,
+  sorted db1 -> sorted db2 -> wf_db db1 -> wf_db db2 -> prog_wf p ->
+  (forall k, E k = false -> lookup db1 k = lookup db2 k) ->
+  (forall k, is_prefix [pfxState] k = true -> E k = false) ->
+  let r1 := run_prog fuel db1 (init_state [pfxState]) p [] in
+  let r2 := run_prog fuel db2 (init_state [pfxState]) p [] in
+  snd r1 = snd r2 /\
+  forall k, E k = false ->
+    lookup (apply_writes (apply_batch db1 (d_cache (fst r1)) diff_enc prune b events fh rt keep) db1) k =
+    lookup (apply_writes (apply_batch db2 (d_cache (fst r2)) diff_enc prune b events fh rt keep) db2) k.
+Proof. exact same_block_on_agreeing_dbs. Qed.
+
+(* adaptive programs refine the specification too (the refinement of C12 for programs instead of fixed sequences) *)
+Theorem C05_run_prog_refines : forall fuel db p d s acc, sorted db -> wf_db db -> prog_wf p -> R db d s ->
+  snd (run_prog fuel db d p acc) = snd (spec_run_prog fuel s p acc) /\
+  R db (fst (run_prog fuel db d p acc)) (fst (spec_run_prog fuel s p acc)).
+Proof. exact run_prog_refines. Qed.
+
+(* ANY NUMBER OF APPLY/REMOVE STEPS.  A history is well bracketed: apply B, <any history on top of B>, delete B,
+   <any history after>.  An apply executes an adaptive program against the consensus store of the CURRENT database
+   and writes the processBlock batch (with the encoded diff record); a delete decodes the diff record it finds in
+   the CURRENT database (None = "diff does not exist" / decode error) and writes the deleteBlock batch.
+   [hist_ok]: keys are byte strings, ids are fresh at every apply, programs well formed, and the history on top of
+   a block does not prune that block's diff record (= does not finalize it).  Then the final database agrees with
+   the initial one on every key outside the union of the exceptions of the applied blocks. *)
+Theorem C05_history_restores : forall (encode : diff -> val) (decode : val -> option diff),
+  (forall d, decode (encode d) = Some d) ->
+  forall (keep : Z) (h : hist) (db db' : smap),
+  sorted db -> hist_ok encode decode keep h db -> run_hist encode decode keep h db = Some db' ->
+  forall k, exc_hist keep h k = false -> lookup db' k = lookup db k.
+Proof. exact history_restores. Qed.
 
 (* cached tip: the block cache stays a non-empty prefix of the chain in the database, so LastBlock() is the
    database tip after every AddBlock / (repaired) RemoveBlock *)
